@@ -41,8 +41,10 @@ theorem isNextTo_shift (dx dy : Int) (a b : Line) : isNextTo (a.shift dx dy) (b.
   cases a.bl <;> cases b.bl <;>
     simp only [Option.map, Baseline.shift_top, Baseline.shift_bottom]
   rename_i x y
-  have e1 : (x.top + dy > y.bottom + dy + 10) ↔ (x.top > y.bottom + 10) := by omega
-  have e2 : (x.bottom + dy < y.top + dy - 10) ↔ (x.bottom < y.top - 10) := by omega
+  have e1 : (x.top + dy > y.bottom + dy + Generated.C15.nextToTolTop) ↔ (x.top > y.bottom + Generated.C15.nextToTolTop) := by
+    omega
+  have e2 : (x.bottom + dy < y.top + dy - Generated.C15.nextToTolBottom) ↔ (x.bottom < y.top - Generated.C15.nextToTolBottom) := by
+    omega
   simp only [e1, e2]
 
 theorem hDiff_shift (dx dy : Int) (a b : Line) : hDiff (a.shift dx dy) (b.shift dx dy) = hDiff a b := by
